@@ -204,12 +204,15 @@ pub fn minimise(prog: &Program, mon: &MonSet, v: &Violation, budget: usize) -> (
     let mut best = prog.clone();
     let mut runs = 0usize;
     let mut n = 2usize;
-    while best.steps.len() >= 2 && runs < budget {
+    // minimisation is a convenience: bounded by candidate runs and by wall-clock time
+    let t0 = std::time::Instant::now();
+    let budget = if std::env::var("YMON_NO_MIN").is_ok() { 0 } else { budget };
+    while best.steps.len() >= 2 && runs < budget && t0.elapsed().as_secs() < 20 {
         let len = best.steps.len();
         let chunk = (len + n - 1) / n;
         let mut reduced = false;
         let mut i = 0;
-        while i < len && runs < budget {
+        while i < len && runs < budget && t0.elapsed().as_secs() < 20 {
             let mut cand = best.clone();
             let end = (i + chunk).min(len);
             cand.steps.drain(i..end);
@@ -231,7 +234,7 @@ pub fn minimise(prog: &Program, mon: &MonSet, v: &Violation, budget: usize) -> (
     }
     // single calls inside transactions
     let mut si = 0;
-    while si < best.steps.len() && runs < budget {
+    while si < best.steps.len() && runs < budget && t0.elapsed().as_secs() < 30 {
         if let Step::Txn { calls, .. } = &best.steps[si] {
             let mut ci = 0;
             let mut ncalls = calls.len();
@@ -312,10 +315,17 @@ pub fn cmd_sim(args: &Args) -> i32 {
             }
             let mut entry = json!({"prop": v.prop, "kind": v.kind, "detail": v.detail, "idx": idx});
             if first_of_kind && violations.len() < 64 {
-                let (min, runs) = minimise(&program, &st.mon, &v, 400);
-                let minres = run_program(&min, &st.mon);
                 let _ = std::fs::create_dir_all(&replay_dir);
                 let path = format!("{}/{}-{}-s{}-i{}.json", replay_dir, prop, v.kind.replace(|c: char| !c.is_alphanumeric(), "_"), seed, idx);
+                // the un-minimised history first: a candidate of the minimisation may not terminate on a broken library
+                let raw = json!({
+                    "workload": "sim", "prop": prop, "tier": tier, "seed": seed, "idx": idx,
+                    "violation": {"prop": v.prop, "kind": v.kind, "detail": v.detail},
+                    "program": program, "log": res.log,
+                });
+                let _ = std::fs::write(&path, serde_json::to_string_pretty(&raw).unwrap());
+                let (min, runs) = minimise(&program, &st.mon, &v, 400);
+                let minres = run_program(&min, &st.mon);
                 let doc = json!({
                     "workload": "sim", "prop": prop, "tier": tier, "seed": seed, "idx": idx,
                     "violation": {"prop": v.prop, "kind": v.kind, "detail": v.detail},
